@@ -66,6 +66,19 @@ def build_case(rng, spec, tier, prop):
     return case
 
 
+def stores_of(t):
+    """[(storage object, block size)] of a file-backed index, found through the two store objects (their
+    `storage` attribute) or the Traph's own attributes; storages without map() are left out."""
+    out = []
+    for store, attr, size in ((getattr(t, "lru_trie", None), "lru_trie_storage", 128), (getattr(t, "link_store", None), "links_store_storage", 16)):
+        st = getattr(store, "storage", None)
+        if st is None:
+            st = getattr(t, attr, None)
+        if st is not None and hasattr(st, "map") and hasattr(st, "read"):
+            out.append((st, size))
+    return out
+
+
 def probes_for(sut, rng):
     m = sut.m
     nodes = sorted(m.nodes)
@@ -185,12 +198,24 @@ def run_case(prop, case, spec, scratch, stats):
             if not compare(a, b, rng, stats, "cleared-vs-fresh", out, prop, -1):
                 return out, feats, digest
             ops = case["ops_after"]
+            # a cleared on-file index is also closed and reopened at some point of what follows (the fresh one is not)
+            reopen_at = rng.randrange(len(ops) + 1) if a.cfg["backend"] == "file" and rng.random() < 0.5 else None
             for i, op in enumerate(ops):
+                if i == reopen_at:
+                    a.reopen()
+                    stats["C11_reopens_after_clear"] += 1
+                    if not compare(a, b, rng, stats, "cleared-reopened-vs-fresh", out, prop, i):
+                        return out, feats, digest
                 if not step(a, b, op, i, out, prop, stats):
                     return out, feats, digest
                 if (i + 1) % case["audit_every"] == 0 or i == len(ops) - 1:
                     if not compare(a, b, rng, stats, "cleared-vs-fresh", out, prop, i):
                         return out, feats, digest
+            if reopen_at == len(ops):
+                a.reopen()
+                stats["C11_reopens_after_clear"] += 1
+                if not compare(a, b, rng, stats, "cleared-reopened-vs-fresh", out, prop, len(ops)):
+                    return out, feats, digest
             sa, sb = M.store_bytes(a.t), M.store_bytes(b.t)
             if sa != sb:
                 stats["note_bytes_differ_with_equal_answers"] += 1
@@ -207,7 +232,7 @@ def run_case(prop, case, spec, scratch, stats):
             mid = rng.randrange(len(ops)) if ops and rng.random() < 0.6 else None
             for i, op in enumerate(ops):
                 if i == mid:
-                    for st, size in ((b.t.lru_trie_storage, 128), (b.t.links_store_storage, 16)):
+                    for st, size in stores_of(b.t):
                         try:
                             mp0 = st.map()
                             held.append(mp0)
@@ -227,7 +252,7 @@ def run_case(prop, case, spec, scratch, stats):
                              lens=(len(sa[0]), len(sb[0]), len(sa[1]), len(sb[1]))))
                 return out, feats, digest
             # memory-mapped reader vs storage reads
-            for st, size in ((b.t.lru_trie_storage, 128), (b.t.links_store_storage, 16)):
+            for st, size in stores_of(b.t):
                 mp = st.map()
                 try:
                     n = len(sb[0]) if size == 128 else len(sb[1])
@@ -242,7 +267,11 @@ def run_case(prop, case, spec, scratch, stats):
                         if bytes(x or b"") != bytes(y or b""):
                             out.append(D([prop], "mmap-reader-differs", block=blk, store=size))
                             return out, feats, digest
-                    if mp.read(n) is not None and bytes(mp.read(n)) != b"":
+                    try:
+                        past = mp.read(n)
+                    except Exception:
+                        past = None  # refusing to read past the end is as good as returning nothing
+                    if past is not None and bytes(past) != b"":
                         out.append(D([prop], "mmap-reader-past-end", store=size))
                 finally:
                     mp.release()
